@@ -236,6 +236,13 @@ impl NetworkBehaviour for ProbeBehaviour {
     fn poll(&mut self, cx: &mut Context<'_>) -> Poll<ToSwarm<Self::ToSwarm, THandlerInEvent<Self>>> {
         let mut g = self.ctl.0.lock().unwrap();
         if let Some(c) = g.commands.pop_front() {
+            if let ToSwarm::NotifyHandler { peer_id, handler, event } = &c {
+                let (target, id) = match handler {
+                    libp2p_swarm::NotifyHandler::One(cid) => ("one", self.ids.conn(*cid)),
+                    libp2p_swarm::NotifyHandler::Any => ("any", 0),
+                };
+                self.log.push(json!({"e": "bEmit", "b": self.name, "peer": self.ids.peer(peer_id), "target": target, "id": id, "ev": event}));
+            }
             return Poll::Ready(c);
         }
         g.waker = Some(cx.waker().clone());
